@@ -40,16 +40,21 @@ ASSUMPTIONS = [
     'floating point: the residual bound |2 pi R UB hkl - Q| <= 64 kappa_inf(R UB) 2^-53 |Q| is PARTIAL - checked per case inside Coq on the '
     'implementation\'s hkl (kappa computed exactly from the stored matrices), not proved (Eigen\'s rounding behaviour is not modelled)',
     'Q components are compared absolutely in units of 2 pi / lambda (2e-15): for nearly parallel beams e_i - e_f cancels',
+    'independence of the call history is not a theorem about CPython module state: the regenerated kernels are pure functions (the translator '
+    'fails closed on module-level state) and the implementation is exercised on call histories (8 x 7 steps per quick run; search: 24 x 10)',
 ]
 LEVEL_TEXT = ('Proof: for all non-zero beams (any length units), positive wavelengths (any numeric dtype) the regenerated kernels return '
               'Q = (2 pi/lambda)(e_i - e_f) component-wise and as a vector, |Q| = 4 pi sin(theta)/lambda with 2theta = angle(b_i,b_f) and equal to '
               'the regenerated scalar Q_from_wavelength(two_theta); Q is independent of beam lengths and commutes with orthogonal maps; '
-              'hkl_vec_from_Q_vec returns the unique solution of 2 pi R UB hkl = Q for every R, UB with det(R UB) <> 0; UB = U*B; '
+              'hkl_vec_from_Q_vec returns the unique solution of 2 pi R UB hkl = Q for every R, UB with det(R UB) <> 0, for ANY units of Q, R, UB '
+              '(numbers independent of the units, unit = unit(Q)/(unit(R) unit(UB))); UB = U*B; '
               'split/join of components is the identity both ways. Residual conditioning validated in Coq per case (64 kappa u).')
 LEVEL_NOTE = ('Trusted: Coq kernel; std-lib real axioms; py2coq; Sem/Val.v model of scipp spatial dtypes (inv = adjugate/det, rotation3 as '
               'matrix); rounding covered by tolerances, the residual bound is _partial.')
 TECHNIQUE = ('Coq proof on regenerated terms (cbv + field; Vec/Vec3.v algebra: adjugate inverse, orthogonal maps, |e_i-e_f| = 2 sin theta) '
-             '+ vm_compute correspondence (rounded rationals) incl. exact kappa_inf and residual per case')
+             '+ vm_compute correspondence (rounded rationals) incl. exact kappa_inf and residual per case, on independent groups and on '
+             'call histories (same numbers re-used in one process with other units / dtypes / shapes; statement re-evaluated on every step, '
+             'failing steps re-run alone in a fresh process)')
 
 LUNITS = ['m', 'mm']
 WUNITS = [('angstrom', 1e-10), ('nm', 1e-9)]
@@ -656,7 +661,7 @@ def correspondence(ctx):
     groups = gen_groups(rng, 60 if quick else 700)
     # call histories, executed in the same process AFTER the independent groups (their ids start at HIST_ID0)
     hrng = random.Random(ctx.seed * 7919 + 5)
-    order, by_hist = gen_histories(hrng, 8 if quick else 60, 7 if quick else 10)
+    order, by_hist = gen_histories(hrng, 8 if quick else 40, 7 if quick else 10)
     res = ctx.run_impl('c08_impl.py', {'groups': groups + order})
     hres = res['groups'][len(groups):]
     res = dict(res, groups=res['groups'][:len(groups)])
@@ -677,7 +682,7 @@ def correspondence(ctx):
             continue
         mutated += not r.get('inputs_unchanged', True)
         # first pixel of every step against the (stateless) model; all pixels against the statement in history_checks
-        for t, d in cases_of(g, r, pixels=None if not quick else [0], norm=False):
+        for t, d in cases_of(g, r, pixels=[0], norm=False):
             terms.append(t)
             descs.append(dict(d, history=g['hist'], step=g['step'], changed=g['changed'], config=g['config']))
     fails, errors = ctx.coq_eval_shards(HEADER, terms, lambda k: 'Eval vm_compute in (report (map (check H MN) cases)).\n', shard=60)
